@@ -678,6 +678,15 @@ def corr_molecules(ck):
         add(tag, m)
     for tag, m in gen_random(ck, rng, 800 if ck.tier == 'quick' else 6000):
         add(tag, m)
+    if ck.tier == 'thorough':
+        # all elements x all rules x all single perturbations (and the rule family of the directed search)
+        for tag, centre, env in gen_rule_family() + gen_rule_perturbed():
+            try:
+                m = build(centre, env)
+            except Exception:
+                ck.count('molecules:perturbed rule could not be built')
+                continue
+            add(('all-rules',) + tag, m, recalc=False)
     pool = corpus.sample(corpus.lipo(), 200 if ck.tier == 'quick' else 1500, ck.seed, 'c04corr')
     for smi in pool:
         try:
@@ -886,6 +895,67 @@ def gen_rule_family():
     return out
 
 
+def order_compositions(v):
+    """the ways of writing a valence v as bond orders 1..3 (non-increasing)"""
+    out = []
+
+    def rec(rest, top, acc):
+        if rest == 0:
+            out.append(list(acc))
+            return
+        for o in range(min(top, rest), 0, -1):
+            rec(rest - o, o, acc + [o])
+    rec(v, 3, [])
+    return out
+
+
+def gen_rule_perturbed():
+    """thorough tier: ALL elements x ALL tabulated rules x ALL single perturbations (deterministic): neighbour list reversed;
+    one more single bond to C / H, double bond to O, order-8 bond to Fe; every distinct neighbour dropped / given every other
+    order 1-3 / replaced by C N O S; centre charge +-1; radical flag flipped.  Common valences: every composition of the valence
+    (and of valence +- 1) into bond orders, to carbon."""
+    from chython.periodictable import Element
+    out = []
+    for cls in Element.__subclasses__():
+        e0 = cls()
+        sym = cls.__name__
+        for v in e0._common_valences:
+            for w in sorted({v - 1, v, v + 1}):
+                if 0 < w <= 8:
+                    for comp in order_compositions(w):
+                        if len(comp) < w:                # all-single environments are in the family already
+                            out.append((('common-orders', sym, v, tuple(comp)), cls(), [(o, 'C') for o in comp]))
+        for i, (chg, rad, h, env) in enumerate(e0._valences_exceptions):
+            if len(env) > 10:
+                continue
+            env = list(env)
+
+            def put(name, e, c=chg, r=rad):
+                if -4 <= c <= 4:
+                    out.append((('rule-' + name, sym, i), cls(charge=c, is_radical=r), e))
+            if len(env) > 1 and env != env[::-1]:
+                put('reverse', env[::-1])
+            for name, extra in (('extraC', (1, 'C')), ('extraH', (1, 'H')), ('extraO2', (2, 'O')), ('any8', (8, 'Fe'))):
+                put(name, env + [extra])
+                put(name + '-first', [extra] + env)
+            put('charge+1', env, c=chg + 1)
+            put('charge-1', env, c=chg - 1)
+            put('radical-flip', env, r=not rad)
+            seen = set()
+            for j, (o, el) in enumerate(env):
+                if (o, el) in seen:
+                    continue
+                seen.add((o, el))
+                put(f'drop{j}', env[:j] + env[j + 1:])
+                for o2 in (1, 2, 3):
+                    if o2 != o:
+                        put(f'order{j}={o2}', env[:j] + [(o2, el)] + env[j + 1:])
+                for el2 in ('C', 'N', 'O', 'S'):
+                    if el2 != el:
+                        put(f'elt{j}={el2}', env[:j] + [(o, el2)] + env[j + 1:])
+    return out
+
+
 RD_ORDER = None
 
 
@@ -946,6 +1016,8 @@ def directed_tables(ck):
                               {'element': cls.__name__}, type(e).__name__, 'a rule dictionary', 'Element._compiled_valence_rules must be computable for all 118 elements',
                               replay_py=f'from chython.periodictable import {cls.__name__}; print(len({cls.__name__}()._compiled_valence_rules))')
     fam = gen_rule_family()
+    if ck.tier == 'thorough':
+        fam = fam + gen_rule_perturbed()
     for tag, centre, env in fam:
         try:
             m = build(centre, env)
@@ -1263,6 +1335,29 @@ def search(ck):
         if hs != hr or set(sub) != ball:
             ck.counterexample(f'sub-rebuild:{s1}:{s2}:{n0}', 'hydrogen counts of substructure() differ from the same fragment built from scratch',
                               {'a': s1, 'b': s2, 'atoms': sorted(ball)}, hs, hr, 'rebuild through add_atom / add_bond')
+    # split() keeps the stored counts (no recalculation): on molecules AS READ, whose aromatic heteroatoms carry the count the
+    # SMILES gave them ([nH]) and would get None from calc_implicit, every atom keeps its count through split()
+    n_ar = 0
+    for smi, _mk in parsed:
+        if n_ar >= (150 if ck.tier == 'quick' else 1500):
+            break
+        if '[nH]' not in smi and '[n+]' not in smi and 'o' not in smi and 's' not in smi:
+            continue
+        try:
+            m0 = smiles(smi)
+        except Exception:
+            continue
+        if not any(int(bd) == 4 for *_, bd in m0.bonds()):
+            continue
+        n_ar += 1
+        ck.case(('split-as-read', smi))
+        ck.count('search:split of aromatic molecules as read')
+        before = {n: x.implicit_hydrogens for n, x in m0.atoms()}
+        after = {n: x.implicit_hydrogens for p_ in m0.split() for n, x in p_.atoms()}
+        if before != after:
+            ck.counterexample(f'split-keeps-h:{smi}', 'split() changed stored hydrogen counts (it must copy them: recalculate_hydrogens=False)', {'smiles': smi},
+                              {n: (before[n], after.get(n)) for n in before if before[n] != after.get(n)}, 'unchanged counts', 'atoms of the parts vs atoms of the molecule',
+                              replay_py=f"from chython import smiles; m = smiles({smi!r}); print([(n, a.implicit_hydrogens) for n, a in m.atoms()], [[(n, a.implicit_hydrogens) for n, a in p.atoms()] for p in m.split()])")
     # boundary: the empty molecule
     try:
         v = float(MoleculeContainer())
